@@ -1,5 +1,9 @@
 """C15ng (sub-check of C15): the pcapng reader on hostile input"""
+import os, sys
+sys.path.insert(0, os.path.dirname(os.path.dirname(os.path.abspath(__file__))))
+from go2v_hook import go2v_hook2
 CONF = {
+    'pre': [go2v_hook2],
     'interesting': ['mut-blocklen', 'mut-optlen', 'mut-tsresol', 'mut-caplen', 'mut-ifid', 'mut-optcode', 'mut-reclen',
                     'mut-rectype', 'mut-origlen', 'mut-snaplen', 'mut-secretslen', 'mut-blocktype', 'mut-bom', 'mut-version',
                     'mut-optval', 'mut-tsoff', 'mut-ts', 'mut-linktype',
